@@ -102,7 +102,7 @@ def predicates(pid, ins, impl):
                 if w[1] in reg:
                     st[reg[w[1]]] = int(stn)
             continue
-        k = norm(w[1]) if w[0] in ("register", "unregister", "cancel", "disconnect", "pairingdetail") else (w[1] if len(w) > 1 and w[0] in ("connected", "connupdate", "connclosed", "report") else None)
+        k = norm(w[1]) if w[0] in ("register", "unregister", "cancel", "disconnect", "pairingdetail", "lookup") else (w[1] if len(w) > 1 and w[0] in ("connected", "connupdate", "connclosed", "report") else None)
         # --- history facts before the event's effects
         if pid == "C10":
             for o in others:
@@ -147,6 +147,10 @@ def predicates(pid, ins, impl):
             got = rows.get(k, {}).get("c", "-")
             if (str(want) if want is not None else "-") != got:
                 fail("registry for %s holds %s after connection %d closed; connection %s was registered before" % (k, got, cid, reg.get(k)))
+        if pid == "C18":
+            for o in others:
+                if o.startswith("stale:"):
+                    fail("a pairing notification for %s showed an older detail object after a newer one had been shown" % o.split(":")[1])
         if pid == "C18" and w[0] == "tick":
             for kk in set(list(lastp) + list(rows)):
                 d = rows.get(kk, {}).get("d", "0")
@@ -240,7 +244,7 @@ def analyse(pid, d, seed, n, ev, only=-1, slow=1):
                 continue
             hist.append(ins[i])
             w1, w2 = ins[i].split(), ins2[i].split()
-            same_event = w1[0] == w2[0] and (w1[1:] == w2[1:] or (len(w1) > 1 and len(w2) > 1 and w1[0] in ("register", "unregister", "cancel", "disconnect", "pairingdetail") and norm(w1[1]) == w2[1]))
+            same_event = w1[0] == w2[0] and (w1[1:] == w2[1:] or (len(w1) > 1 and len(w2) > 1 and w1[0] in ("register", "unregister", "cancel", "disconnect", "pairingdetail", "lookup") and norm(w1[1]) == w2[1]))
             if not same_event:
                 skip = True     # generator followed a divergent state: reported at the first differing output
                 continue
@@ -341,6 +345,11 @@ def check(pid, tier, seed):
         "the model's dial is atomic with its guard checks; in the code the guard checks and the TCP connect are a few statements apart",
     ]
     cov = hub_part(R, pid, tier, seed)
+    thcov = {}
+    if pid == "C18" or tier == "thorough":
+        # end to end: real SHIP connections report their state changes to real hubs
+        from . import twohubs
+        thcov = twohubs.th_part(R, pid, tier, seed)
     R.coverage = {
         "obligations": cov["obligations"], "discharged": cov["discharged"],
         "checker_cmd": "cd /verif/lean && lake build ShipVerif.Props.HubProps; lake env lean Audit.lean (#print axioms)",
@@ -353,5 +362,6 @@ def check(pid, tier, seed):
         "samples": cov.get("hub_samples", []),
         "facts_changed": cov.get("facts_changed", []),
         "timing_candidates_not_reproduced_with_longer_waits": cov.get("timing_candidates_not_reproduced_with_longer_waits", {}),
+        **thcov,
     }
     return R.finish()
